@@ -1199,7 +1199,7 @@ def _dulwich_reads_git(ctx, git, items):
 
 WF_VALUES = [b"v1", b"v2", b" lead", b"trail ", b"a#b", b'q"q', b"back\\slash", b"tab\there", b"multi\nline", b"",
              b"x y", b"\\", b"#", b" ; ", b"a;b#", b"\\n", b"caf\xc3\xa9", b"\x08", b"a\x0bb",
-             b"a;b", b";", b"a\rb", b"\rlead", b"trail\r", b"\r", b"x;y\rz"]
+             b"a;b", b";", b"a\rb", b"\rlead", b"trail\r", b"\r", b"x;y\rz", b"\x0bvt", b"ff\x0c", b"\x0c", b"\x0b a"]
 
 
 def gen_interleaved(rng):
@@ -1296,14 +1296,14 @@ def run_interleaved(ctx, git, steps, stream="interleaved") -> bool:
 
 
 def _stream_interleaved(ctx, git, n):
-    """set / add / unset / rewrite sequences shared between C git and dulwich (no value with a VT/FF edge: a git-written
-    one is the known reader-side finding, exercised in dulwich.reads-git); any failure here is unclassified."""
+    """set / add / unset / rewrite sequences shared between C git and dulwich ; any failure here is unclassified."""
     for _ in range(n):
         run_interleaved(ctx, git, gen_interleaved(ctx.rng))
 
 
 def git_written_class(git_value: bytes, dulwich_value: bytes):
-    """the remaining reader-side defect: git writes a value whose first/last byte is VT or FF *unquoted* (git's
+    """label of the reader-side class repaired by 21a48ab (no known finding matches it any more, so a recurrence is a
+    violation): git writes a value whose first/last byte is VT or FF *unquoted* (git's
     isspace() does not include them) and preserves it; dulwich's bytes.strip() removes that edge run.  Narrow: the value
     must have such an edge and dulwich's reading must be exactly the value minus its edge runs of VT/FF/space bytes (git
     writes TAB as the escape \\t, LF as \\n and quotes values with CR, so only these three can be lost)."""
@@ -1368,12 +1368,12 @@ def parse_cfg_tokens(s: str):
 
 # ------------------------------------------------------------------------------------------------
 
-#: AST fingerprints of the modelled functions at the commit the model was last brought up to date with (f1ebc7b).  A change never decides anything by itself,
+#: AST fingerprints of the modelled functions at the commit the model was last brought up to date with (21a48ab).  A change never decides anything by itself,
 #: it only multiplies the case budget (DESIGN 2.3 "adaptive depth").
 BASELINE_FP = {
     "_format_string": "8fb19f6479ee70a3",
     "_escape_value": "3533afdf15740afa",
-    "_parse_string": "1e4fbf2a65be146a",
+    "_parse_string": "eb9afd67748de890",
     "_escape_subsection": "b27e05583af733e1",
     "_unescape_subsection": "591dc33c8e10c194",
     "_check_variable_name": "58458acd9181d2c3",
